@@ -135,6 +135,26 @@ impl V {
         }
     }
 
+    /// With the window open: login tokens live one day (shipped default session expiry wins the policy
+    /// fold) - log in again when they are about to lapse, so that every row starts from live tokens.
+    async fn refresh_logins(&mut self) {
+        let soon = self.now + 7200;
+        if self.w.present(soon, &self.uat).await.is_err() {
+            if let Ok(tok) = self.w.login(self.now, "pt", false, AuthMech::Password, vec![AuthCredential::Password(PW.into())]).await {
+                while !self.w.pending.is_empty() {
+                    self.w.apply_pending(0, self.now).await;
+                }
+                self.uat = tok;
+                self.grant = None;
+            }
+        }
+        if self.w.present(soon, &self.anon_tok).await.is_err() {
+            if let Ok(tok) = self.w.login(self.now, "anonymous", false, AuthMech::Anonymous, vec![AuthCredential::Anonymous]).await {
+                self.anon_tok = tok;
+            }
+        }
+    }
+
     /// With the window open: make sure the OAuth2 grant is fresh (access tokens live 15 minutes).
     async fn refresh_grant(&mut self) {
         let rt = self.grant.as_ref().map(|g| g.rt.clone());
@@ -298,6 +318,7 @@ async fn row(v: &mut V, tr: &mut Tracer, vf: i64, ex: i64, tq: u64, only: Option
     // open window: refresh what expires by itself, then set the window under test
     v.now = tq.saturating_sub(5).max(v.now);
     v.set_window(-1, -1).await;
+    v.refresh_logins().await;
     v.refresh_grant().await;
     v.set_window(vf, ex).await;
     let tq = tq.max(v.now);
